@@ -786,7 +786,12 @@ func TestVerif_C01_Record(t *testing.T) {
 }
 
 func FuzzVerif_C01_Record(f *testing.F) {
+	// The recorder only carries violations here (a violation fails the input and becomes a crasher file); it is not
+	// flushed: fuzz workers are killed by the coordinator, so their counts would be lost anyway. The driver records execs.
 	rec := verifx.NewRecorder("C01", "barrier-record-fuzz", "same property as barrier-record, cases decoded from the native fuzzer's bytes (rapid.MakeFuzz)")
-	defer rec.Flush()
+	// rapid consumes 8 input bytes per draw and skips inputs that run out: seed with inputs long enough for a whole case
+	for seed := uint64(1); seed <= 12; seed++ {
+		f.Add(c01Expand(seed, 6144))
+	}
 	f.Fuzz(rapid.MakeFuzz(c01Prop(rec)))
 }
